@@ -27,6 +27,9 @@ TNext ==
                    THEN Viol("history not linearizable at return of " \o e.o \o " = " \o ToString(e.v)) /\ lin' = {}
                    ELSE lin' = n
               /\ UNCHANGED <<ops, blk>>
+         \* the time-out of the caller's own timed wait: the instant it "gave up"
+         [] e.k = "cvwake" /\ e.v = 2 /\ e.t \in TT /\ ops[e.t] \in {3, 5} ->
+              LET o2 == [ops EXCEPT ![e.t] = @ + 10] IN ops' = o2 /\ lin' = LinGiveUp(lin, o2) /\ UNCHANGED blk
          [] e.k = "blocked" -> blk' = blk \cup ({e.t} \cap TT) /\ UNCHANGED <<lin, ops>>
          [] e.k = "deadlock" ->
               /\ (lin # {} /\ ~QuiescentOK(lin, {t \in blk : \E c \in lin : c.st[t] # NONE}, ops))
